@@ -1,17 +1,175 @@
-// Harnesses that are children of `writers::file_log_writer::state` (see private items there).
+// Harnesses that are children of `writers::file_log_writer::state` (they see its private items).
 use super::*;
+use chrono::{FixedOffset, NaiveDate};
 use verif_support as vs;
 
-// @verif prop=C08 tier=quick timeout=120 id=c08_size_kernel
-// For all u64 max/cur: rotation_necessary() of a Size roll state == (cur > max).
+include!(concat!(env!("CARGO_MANIFEST_DIR"), "/verif_seed.rs"));
+
+// ------------------------------------------------------------------------------------------------
+// E-clock stub for chrono::Local::now: next instant of the harness-supplied sequence.
+fn dt_of(i: &vs::Instant) -> DateTime<Local> {
+    let fo = FixedOffset::east_opt(i.off).unwrap();
+    let ndt = NaiveDate::from_ymd_opt(i.y, i.mo, i.d).unwrap().and_hms_opt(i.h, i.mi, i.s).unwrap();
+    // `ndt` is the local wall-clock reading; DateTime stores UTC + offset
+    DateTime::from_naive_utc_and_offset(ndt - fo, fo)
+}
+fn stub_now() -> DateTime<Local> {
+    dt_of(&vs::clock_next())
+}
+// Offsets: UTC, +1h, -9:30, +12:45, +5:45, -3h (seconds east)
+const OFFSETS: [i32; 6] = [0, 3600, -34200, 45900, 20700, -10800];
+fn any_offset() -> i32 {
+    let k: usize = kani::any();
+    kani::assume(k < OFFSETS.len());
+    OFFSETS[k]
+}
+// A valid civil instant inside the seed-selected 4-year window (always holds a leap year and
+// three year boundaries).
+fn any_instant(off: i32) -> vs::Instant {
+    let y: i32 = kani::any();
+    let mo: u32 = kani::any();
+    let d: u32 = kani::any();
+    let h: u32 = kani::any();
+    let mi: u32 = kani::any();
+    let s: u32 = kani::any();
+    kani::assume(y >= VERIF_YEAR0 && y < VERIF_YEAR0 + 4);
+    kani::assume(mo >= 1 && mo <= 12 && d >= 1 && d <= 31 && h < 24 && mi < 60 && s < 60);
+    kani::assume(NaiveDate::from_ymd_opt(y, mo, d).is_some());
+    vs::Instant { y, mo, d, h, mi, s, off }
+}
+// Reference, written from the property text: the local clock reading truncated to the period.
+// level 0 = day, 1 = hour, 2 = minute, 3 = second.
+fn same_period(a: &vs::Instant, b: &vs::Instant, level: u8) -> bool {
+    let mut same = (a.y, a.mo, a.d) == (b.y, b.mo, b.d);
+    if level >= 1 {
+        same = same && a.h == b.h;
+    }
+    if level >= 2 {
+        same = same && a.mi == b.mi;
+    }
+    if level >= 3 {
+        same = same && a.s == b.s;
+    }
+    same
+}
+
+fn c09_kernel(age: Age, level: u8) {
+    vs::cell_set(0, 0);
+    let off = any_offset();
+    let created = any_instant(off);
+    let now = any_instant(off);
+    // monotone local clock (stated assumption; DST jumps are outside the claim)
+    kani::assume(vs::instant_le(&created, &now));
+    vs::clock_push(now);
+    let created_at = dt_of(&created);
+    let r = RollState::age_rotation_necessary(age, &created_at);
+    let expect = !same_period(&created, &now, level);
+    assert!(r == expect);
+    kani::cover!(r && created.y != now.y, "rotation across a year boundary");
+    kani::cover!(r && created.y == now.y && created.mo != now.mo && created.d == now.d, "same day number, other month");
+    kani::cover!(!r, "no rotation");
+    kani::cover!(level == 3 || (!r && created.s != now.s), "no rotation although instants differ (n/a for seconds)");
+    kani::cover!(level < 3 || r || created.s == now.s, "second level reached");
+    kani::cover!(r && created.mo == 2 && created.d == 29, "leap day");
+    kani::cover!(off != 0 && created_at.naive_utc().date() != created_at.naive_local().date(), "UTC date differs from local date");
+}
+
+// @verif prop=C09 tier=quick timeout=300 bounds=4-year-window(seed),6-offsets,now>=created
+// Age::Day: real kernel == (local day index of created_at != local day index of now), clock stubbed.
 #[kani::proof]
 #[kani::stub(verif_support::reexp::catch_unwind, verif_support::stub_cu)]
+#[kani::stub(chrono::Local::now, stub_now)]
+fn c09_kernel_day() {
+    c09_kernel(Age::Day, 0);
+}
+// @verif prop=C09 tier=quick timeout=300 bounds=4-year-window(seed),6-offsets,now>=created
+// Age::Hour: real kernel == (local hour index differs).
+#[kani::proof]
+#[kani::stub(verif_support::reexp::catch_unwind, verif_support::stub_cu)]
+#[kani::stub(chrono::Local::now, stub_now)]
+fn c09_kernel_hour() {
+    c09_kernel(Age::Hour, 1);
+}
+// @verif prop=C09 tier=quick timeout=300 bounds=4-year-window(seed),6-offsets,now>=created
+// Age::Minute: real kernel == (local minute index differs).
+#[kani::proof]
+#[kani::stub(verif_support::reexp::catch_unwind, verif_support::stub_cu)]
+#[kani::stub(chrono::Local::now, stub_now)]
+fn c09_kernel_minute() {
+    c09_kernel(Age::Minute, 2);
+}
+// @verif prop=C09 tier=quick timeout=300 bounds=4-year-window(seed),6-offsets,now>=created
+// Age::Second: real kernel == (local second differs).
+#[kani::proof]
+#[kani::stub(verif_support::reexp::catch_unwind, verif_support::stub_cu)]
+#[kani::stub(chrono::Local::now, stub_now)]
+fn c09_kernel_second() {
+    c09_kernel(Age::Second, 3);
+}
+
+// ------------------------------------------------------------------------------------------------
+// @verif prop=C08 tier=quick timeout=120 bounds=all-u64
+// For all u64 max/cur: rotation_necessary() of a Size roll state == (cur > max); AgeOrSize with the age part inactive (same period) decides identically.
+#[kani::proof]
+#[kani::stub(verif_support::reexp::catch_unwind, verif_support::stub_cu)]
+#[kani::stub(chrono::Local::now, stub_now)]
 fn c08_size_kernel() {
     vs::cell_set(0, 0);
     let max_size: u64 = kani::any();
     let current_size: u64 = kani::any();
     let rs = RollState::Size { max_size, current_size };
     assert!(rs.rotation_necessary() == (current_size > max_size));
+    assert!(RollState::size_rotation_necessary(max_size, current_size) == (current_size > max_size));
+    // age part inactive: created_at and now in the same second
+    let i = vs::Instant { y: 2024, mo: 2, d: 29, h: 23, mi: 59, s: 59, off: 3600 };
+    vs::clock_push(i);
+    let rs2 = RollState::AgeOrSize { age: Age::Second, created_at: dt_of(&i), max_size, current_size };
+    assert!(rs2.rotation_necessary() == (current_size > max_size));
     kani::cover!(current_size == max_size, "at limit");
     kani::cover!(max_size < u64::MAX && current_size == max_size + 1, "just above");
+    kani::cover!(max_size == 0 && current_size == 0, "N = 0, empty file");
+}
+
+// @verif prop=C08 tier=quick timeout=120 bounds=cur+add<=u64::MAX
+// increase_size adds exactly `add` for Size and AgeOrSize (nothing for Age); reset_size_and_date sets 0. No overflow panic for sums within u64.
+#[kani::proof]
+#[kani::stub(verif_support::reexp::catch_unwind, verif_support::stub_cu)]
+#[kani::stub(chrono::Local::now, stub_now)]
+#[kani::stub(get_creation_timestamp, stub_creation_ts)]
+fn c08_size_accounting() {
+    vs::cell_set(0, 0);
+    let max_size: u64 = kani::any();
+    let cur: u64 = kani::any();
+    let add: u64 = kani::any();
+    kani::assume(cur <= u64::MAX - add);
+    let mut rs = RollState::Size { max_size, current_size: cur };
+    rs.increase_size(add);
+    match rs {
+        RollState::Size { max_size: m, current_size: c } => assert!(m == max_size && c == cur + add),
+        _ => unreachable!(),
+    }
+    rs.reset_size_and_date(Path::new("x"));
+    match rs {
+        RollState::Size { max_size: m, current_size: c } => assert!(m == max_size && c == 0),
+        _ => unreachable!(),
+    }
+    let i = vs::Instant { y: 2024, mo: 2, d: 29, h: 23, mi: 59, s: 59, off: 0 };
+    let mut rs2 = RollState::AgeOrSize { age: Age::Day, created_at: dt_of(&i), max_size, current_size: cur };
+    rs2.increase_size(add);
+    match rs2 {
+        RollState::AgeOrSize { current_size: c, max_size: m, .. } => assert!(m == max_size && c == cur + add),
+        _ => unreachable!(),
+    }
+    vs::clock_push(i);
+    rs2.reset_size_and_date(Path::new("x"));
+    match rs2 {
+        RollState::AgeOrSize { current_size: c, max_size: m, .. } => assert!(m == max_size && c == 0),
+        _ => unreachable!(),
+    }
+    kani::cover!(add == 0, "empty record");
+    kani::cover!(cur > max_size && add > 0, "write into an over-limit file (after failed rotation)");
+}
+// model of get_creation_timestamp: birth instant of the file = next clock value
+fn stub_creation_ts(_p: &Path) -> DateTime<Local> {
+    stub_now()
 }
